@@ -47,7 +47,7 @@ class Violation(Exception):
 # ----------------------------------------------------------------- sources
 def make_source(name: str, loc: str, ver: int, struct: dict) -> str:
     ident = f"{name}#{ver}@{loc}"
-    head = "<" + ident + " u={{ user }} g={{ gv }} n={{ tenant }} p={{ prof.name }}>"
+    head = "<" + ident + " u={{ user }} g={{ gv }} n={{ tenant }} p={{ prof.name }}>{{ matter_ns }}"
     k = struct.get("k", "plain")
     t = struct.get("t", "a")
     if k == "plain":
@@ -65,6 +65,14 @@ def make_source(name: str, loc: str, ver: int, struct: dict) -> str:
                + "{{ block.super }}{% endblock %}")
     elif k == "base":
         src = head + "[{% block body %}base{% endblock %}]"
+    elif k == "shadow_assign":   # a LOCAL variable named like the namespace key must not change the cache key
+        src = head + "{% assign tenant = '" + struct.get("ns", "t2") + "' %}{% include '" + t + "' %}"
+    elif k == "shadow_for":
+        src = head + "{% for tenant in tenant_list %}{% render '" + t + "' %}{% endfor %}"
+    elif k == "shadow_with":
+        src = head + "{% with tenant: '" + struct.get("ns", "t1") + "' %}{% include '" + t + "' %}{% endwith %}"
+    elif k == "shadow_capture":
+        src = head + "{% capture tenant %}" + struct.get("ns", "t2") + "{% endcapture %}{% render '" + t + "' %}"
     else:
         raise ValueError(k)
     cut = struct.get("cut")
@@ -435,7 +443,7 @@ class World:
         return _Ctx()
 
     def data_for(self, d: dict, tag: str) -> dict:
-        raw = {"user": d["user"], "prof": {"name": d["user"]}}
+        raw = {"user": d["user"], "prof": {"name": d["user"]}, "tenant_list": list(TENANTS)}
         if d.get("tenant") is not None:
             raw["tenant"] = d["tenant"]
         return wrap_data(raw, {"mode": "all"}, DropCtl(tag))
@@ -924,6 +932,9 @@ def gen_plan(seed: int, tier: str) -> dict:
     def struct():
         k = rng.choice(["plain", "plain", "plain", "inc", "incw", "ren", "renw", "ext", "base"])
         t = rng.choice(names)
+        if nskey and rng.random() < 0.15:
+            k = rng.choice(["shadow_assign", "shadow_for", "shadow_with", "shadow_capture"])
+            return {"k": k, "t": t, "ns": rng.choice(TENANTS)}
         return {"k": k, "t": t}
 
     init = []
